@@ -794,6 +794,28 @@ example : loopStrict trivCb 4 0xFFFF_FFFF_FFFF_FFFE wrapMem () 0xFFFF_FFFF_FFFF_
   simp [e1, trivCb, Region.toRegionAddr, checkedSub, Region.checkAddress, Region.addressInRange,
     Region.len, U, ov]
 
+/-- **the walk never continues past the last address** (fix dfb8366), for *every* layout, well-formed or not: when the
+    chunk just handled ends exactly at 2^64 and more bytes were asked for, the access returns what it has moved so far —
+    it does not look up address 0 -/
+theorem loop_stops_at_top {σ : Type} (f : GMem → σ → Nat → Nat → Nat → Nat → GMem × σ × Res Nat)
+    (count addr : Nat) (m : GMem) (st : σ) (cur total idx start k : Nat) (region : Region) (m' : GMem) (st' : σ)
+    (hfind : m.findRegion cur = .ok (some idx)) (hreg : m[idx]? = some region)
+    (hstart : region.toRegionAddr cur = some start)
+    (hpre : ¬ (region.len < start ∨ count < total))
+    (hf : f m st total (min (region.len - start) (count - total)) start idx = (m', st', .ok (k + 1)))
+    (hmore : total + (k + 1) < count) (hfit : total + (k + 1) < U)
+    (htop : cur + (k + 1) = U) :
+    GMem.tryAccessLoop f count addr m st cur total = (m', st', .ok (total + (k + 1))) := by
+  rw [GMem.tryAccessLoop, hfind]
+  simp only [hreg, hstart]
+  rw [if_neg hpre]
+  simp only [hf]
+  rw [if_pos hfit, if_pos hmore]
+  have ov : overflowingAdd cur (k + 1) = (0, true) := by
+    unfold overflowingAdd; rw [htop]; simp [U]
+  simp [ov]
+
+
 /-! ## 6. histories: the memory refines a spec-level machine over `flat`
 
   The spec-level state is the flat byte function; the layout `L` (any memory with the same
@@ -1366,3 +1388,4 @@ end VmMem
 #print axioms VmMem.FlatLemmas.flat_stored
 #print axioms VmMem.C03.wrap_before_fix
 #print axioms VmMem.C03.no_wrap_after_fix
+#print axioms VmMem.C03.loop_stops_at_top
